@@ -440,6 +440,7 @@ func newTwin(w *world.World) *twin {
 		panic(err)
 	}
 	t := &twin{u: &gen.Universe{W: cw, N: node.New(cw)}}
+	t.u.N.NoScribble = true
 	for _, sh := range cw.Shards {
 		t.first = append(t.first, observePrefixes(sh.Container))
 	}
